@@ -1621,14 +1621,16 @@ def gen_scenario_histright(rng, max_cs):
         shape = evolved_shape(left, steps)
         right = None
         for _ in range(12):
-            life = gen_history(rng, nest=0.25, inner=True)["hist"]
-            if any(o["op"] == "det" for o in life["ops"]):
+            sub = gen_history(rng, nest=0.25, inner=True)
+            life = sub["hist"]
+            if sub["out_removed"] or any(o["op"] == "det" for o in life["ops"]):
                 continue
             try:
                 obj = hist_realize(life)[0]
-                o = {"m": obj.m, "cs": obj.circuit_size, "heralds": [[int(k), int(v)] for k, v in obj.heralds.items()]}
-                _ = obj.in_port_names, obj.out_port_names
+                o = observe_right(obj)
             except Exception:  # noqa: GenInvalid or a port past the last mode
+                continue
+            if o["in_names"] is None or o["out_names"] is None:
                 continue
             if real_right_wf(o) and 1 <= o["m"] <= max(1, len(shape[1])) and obj.post_select_fn is None:
                 right = {"kind": "hist", "hist": life, "shape": [int(obj.m), [h[0] for h in o["heralds"]]]}
@@ -2319,6 +2321,7 @@ def gen_history(rng, nest=0.0, inner=False, lead=False):
     names = [("n" if inner else "") + x for x in NAMES]
     rng.shuffle(names)
     ops = []
+    out_removed = [False]      # a herald port was taken off the output side (or a malformed nested life was added)
     all_her = rng.random() < 0.3 and m0 is not None and not inner and not lead
 
     def free_modes():
@@ -2330,12 +2333,16 @@ def gen_history(rng, nest=0.0, inner=False, lead=False):
         kind = rng.choice(["leaf", "leaf", "proc"])
         right = None
         if rng.random() < nest:
-            life = gen_history(rng, nest=nest / 3, inner=True)["hist"]
+            sub = gen_history(rng, nest=nest / 3, inner=True)
+            life = sub["hist"]
             try:
                 obj = hist_realize(life)[0]
-                if 1 <= obj.m <= max(1, len(fm)) + 1:
+                observe_right(obj)
+                # inside a nested life only well-formed lives are added (a malformed added processor leaves garbage
+                # behind); at the top level a malformed nested life is allowed: its add is counted, not compared
+                if 1 <= obj.m <= max(1, len(fm)) + 1 and not (inner and sub["out_removed"]):
                     right = {"kind": "hist", "hist": life, "shape": [int(obj.m), [int(k) for k in obj.heralds]]}
-            except GenInvalid:
+            except Exception:  # noqa: GenInvalid, or a life that cannot be observed
                 right = None
         if right is not None:
             pass
@@ -2373,6 +2380,7 @@ def gen_history(rng, nest=0.0, inner=False, lead=False):
         pin[k] = pout[k] = "H"
         if rng.random() < 0.3:      # the herald port taken off again, on either side or both
             loc = rng.choice(["INPUT", "OUTPUT", "IN_OUT"])
+            out_removed[0] = out_removed[0] or loc != "INPUT"
             ops.append({"op": "rmport", "mode": k, "loc": loc})
             for tbl in ([pin] if loc == "INPUT" else [pout] if loc == "OUTPUT" else [pin, pout]):
                 del tbl[k]
@@ -2425,6 +2433,7 @@ def gen_history(rng, nest=0.0, inner=False, lead=False):
                 tbls = {"INPUT": [pin], "OUTPUT": [pout], "IN_OUT": [pin, pout]}[loc]
                 pool = [k for k in her if all(k in t for t in tbls)]      # removing a herald port: allowed by the code
             k = rng.randint(0, cs) if (wild or not pool) else rng.choice(sorted(pool))
+            out_removed[0] = out_removed[0] or (k in her and loc != "INPUT")
             ops.append({"op": "rmport", "mode": k, "loc": loc})
             for tbl in ([pin] if loc == "INPUT" else [pout] if loc == "OUTPUT" else [pin, pout]):
                 nm = tbl.get(k)
@@ -2439,7 +2448,7 @@ def gen_history(rng, nest=0.0, inner=False, lead=False):
             add_op()
     if all_her and not any(o["op"] == "add" for o in ops):
         add_op()
-    return {"hist": {"m": m0, "ops": ops}}
+    return {"hist": {"m": m0, "ops": ops}, "out_removed": out_removed[0]}
 
 
 def hist_sig(scn):
